@@ -207,12 +207,12 @@ class DnsProxy(Handler):
 
         family, sockaddr = self._addrinfo(peer, port)
         sock = socket.socket(family, socket.SOCK_DGRAM)
-        sock.connect(sockaddr)
 
         self.peers[sock] = peer
 
         debug2('DNS: sending to %r:%d (try %d)' % (peer, port, self.tries))
         try:
+            sock.connect(sockaddr)
             sock.send(self.request)
             self.socks.append(sock)
         except socket.error:
